@@ -19,6 +19,8 @@ RULE = ('Hypothesis: sequences of length 0..12 given as list / tuple / '
         'prefix, the p_... aliases; probes after the end tag.  Non-trivial: '
         'length >= 2 with a run of equal x of length >= 2, or a prefix, or '
         '2-tuples.  Distinct = hash of the case.')
+RULE += (
+         'Also: str-subclass and two-field tuple-subclass elements. ')
 ASSUMPTIONS = [
     'sequence-key is only defined for 2-tuple elements; letters only for '
     'index < 26; sort keys are unique, or tie in which case a sort keeps '
